@@ -24,6 +24,15 @@ class TagDataset(torch.utils.data.Dataset):
         pass
 
 
+class ViewDataset(TagDataset):
+    """a dataset that is itself a view of a larger one and says so through a public .dataset attribute (torch Subset, every kappadata
+    wrapper): the scheduler serves the samples of the view, not of what lies underneath"""
+
+    def __init__(self, n, tag):
+        super().__init__(n, tag)
+        self.dataset = TagDataset(n + 3, 1000 + tag)
+
+
 class EpochSampler:
     """harness sampler: order is a permutation keyed by (key, announced epoch); logs set_epoch/__iter__"""
 
@@ -150,21 +159,24 @@ def tags_of(spec):
 def build_impl(spec, start=None):
     """real InterleavedSampler for the spec; returns (sampler, main_sampler)"""
     from kappadata.samplers import InterleavedSampler, InterleavedSamplerConfig
-    main_ds = TagDataset(main_size(spec), 0)
+    mk_ds = ViewDataset if spec.get("view") else TagDataset
+    main_ds = mk_ds(main_size(spec), 0)
     main = make_main_sampler(spec, main_ds)
     configs = []
     tags, made = tags_of(spec), {}
     for k, c in enumerate(spec["configs"]):
-        ds = made.get(tags[k + 1]) or TagDataset(c["size"], tags[k + 1])
+        ds = made.get(tags[k + 1]) or mk_ds(c["size"], tags[k + 1])
         made[tags[k + 1]] = ds
+        # 'dup': the config is listed a second time - the very same sampler object with the same fields (two configs that compare equal)
+        smp = configs[k - 1].sampler if (c.get("dup") and k > 0) else make_config_sampler(c, ds)
         if spec.get("call") == "positional":
             # the documented field order of the config dataclass: sampler, every_n_epochs, every_n_updates, every_n_samples, collator,
             # batch_size
-            configs.append(InterleavedSamplerConfig(make_config_sampler(c, ds), c.get("n_e"), c.get("n_u"), c.get("n_s"),
+            configs.append(InterleavedSamplerConfig(smp, c.get("n_e"), c.get("n_u"), c.get("n_s"),
                                                     c.get("_collator"), c.get("batch_size")))
         else:
             configs.append(InterleavedSamplerConfig(
-                sampler=make_config_sampler(c, ds),
+                sampler=smp,
                 every_n_epochs=c.get("n_e"), every_n_updates=c.get("n_u"), every_n_samples=c.get("n_s"),
                 batch_size=c.get("batch_size"), collator=c.get("_collator"),
             ))
@@ -320,6 +332,9 @@ def full_spec(draw, max_configs=4, small=False, allow_zero_budget=True, single_k
             g["configs"][k]["size"] = g["configs"][k - 1]["size"]
             if "take" in g["configs"][k]:
                 g["configs"][k]["take"] = min(g["configs"][k]["take"], max(1, g["configs"][k]["size"]))
+    for k in range(1, n_cfg):
+        if g["configs"][k - 1].get("form") != "growing" and draw(st.integers(0, 5)) == 0:
+            g["configs"][k] = dict(g["configs"][k - 1], dup=True, share=True)
     if allow_zero_budget and n_cfg > 0 and draw(st.integers(0, 14)) == 0:
         g["budget"] = 0
     if draw(st.integers(0, 3)) == 0:
@@ -327,4 +342,6 @@ def full_spec(draw, max_configs=4, small=False, allow_zero_budget=True, single_k
     form = draw(st.sampled_from([None, None, None, "int", "np"]))
     if form:
         g["dl_form"] = form
+    if draw(st.integers(0, 3)) == 0:
+        g["view"] = True
     return g
